@@ -279,6 +279,10 @@ def check(ctx):
     ctx.floor("C18.d", n, 25, "shared revoke-exactness obligations")
     # a revoke whose token names a dead entity still revokes every other entry of the token (shared with C06.c)
     n = core.adopt(ctx, c06, lambda o: o["rule"] == "C06.c" and "visits-every-token-entry" in o["key"], "C18.d")
+    # removing triggers that name a despawned entity leaves the other entities of the bundle handled: the per-entity cleanup of a
+    # world reactor's local data skips a dead entity instead of abandoning the rest (shared with C16.c)
+    import c16 as _c16
+    n += core.adopt(ctx, _c16, lambda o: o["rule"] == "C16.c" and ("revoke-then-cleanup-per-entity" in o["key"] or "removes-only-when-no-entry-left" in o["key"]), "C18.d")
     ctx.floor("C18.d", n, 1, "shared token-traversal obligation (C06.c)")
     # ---- C18.f payload accounting with dead listeners: one command (and one count) per registered listener, dead or
     #      alive - the abort path releases the share of a dead one (shared with C05.a/C05.b) ----
